@@ -50,6 +50,9 @@ func init() {
 		name := b64Name(in, a[0])
 		s := termArg(in, a[1])
 		in.event("base64.%s.DecodeString", name)
+		if s.Const && s.Str == "" {
+			return Tuple{&SliceV{}, nilError()}
+		}
 		if in.Branch(B64OK(name, s)) {
 			return Tuple{in.SymBytesOfStr(B64D(name, s)), nilError()}
 		}
@@ -59,7 +62,8 @@ func init() {
 	intrinsics["vBytes"] = func(in *Interp, fn *ssa.Function, a []Value) Value {
 		name := in.fresh(constStr(in, a[0], "vBytes name"))
 		s := smt.NewVar(symName(name), smt.KStr, 0)
-		in.addInput(name, "bytes", s)
+		ir := in.addInput(name, "bytes", s)
+		ir.Extra["len"] = BLen(s)
 		sl := in.SymBytesOfStr(s)
 		in.Assume(smt.Eq(smt.Eq(BLen(s), smt.BV(0, 64)), smt.Eq(s, smt.StrLit(""))))
 		return sl
